@@ -517,6 +517,35 @@ def apply_derivation(obj, step, root=None):
     raise ValueError(step)
 
 
+_PYOPS = {">": lambda a, b: a > b, "<": lambda a, b: a < b, ">=": lambda a, b: a >= b, "<=": lambda a, b: a <= b,
+          "=": lambda a, b: a == b, "!=": lambda a, b: a != b}
+
+
+def ref_selection(kind, rec):
+    """by-name reference of a derivation chain on ROWS (no pydap code involved)"""
+    names = ["i", "f", "t"]
+    rows = list(ROWS)
+    for st in rec:
+        if st[0] in ("filt", "colfilt"):
+            j = names.index(st[1])
+            rows = [r for r in rows if _PYOPS[st[2]](r[j], st[3])]
+    for st in rec:
+        if st[0] == "slice":
+            rows = rows[slice(st[1], st[2], st[3])]
+        elif st[0] == "int":
+            rows = rows[st[1]:st[1] + 1]
+    cols = names
+    for st in rec:
+        if st[0] == "cols":
+            cols = list(st[1])
+        elif st[0] == "child":
+            cols = [st[1]]
+    out = [tuple(r[names.index(c)] for c in cols) for r in rows]
+    if kind == "col":
+        return [r[0] for r in out]
+    return out
+
+
 def gen_history(rng, n_ops):
     """user-level ops; targets are indices into the list of live objects (0 = dataset.s)"""
     live = [("seq", ["i", "f", "t"])]      # kinds and visible columns, mirrored symbolically
@@ -724,6 +753,15 @@ class HistoryRun:
             if v != self.first[i]:
                 self.fail("a derived object reads other data than a fresh client applying the same selection",
                           self.first[i], v)
+            # independent of the client: the selection evaluated by name on the source rows (all conditions, then the
+            # record ranges in the order they were applied, then the columns of the last column list / the child)
+            want = ref_selection(kind, rec)
+            got = self.first[i]
+            if isinstance(got, str) and got.startswith("escaped:") and not want:
+                continue        # an empty selection has no hyperslab text: the server's error document (C03/C04)
+            if got != want:
+                self.fail("a derived object reads other rows/columns than its selection names on the source rows",
+                          got, want)
 
 
 GRID_IDX = [(0,), (1,), (-1,), (slice(None), 1), (slice(None), slice(0, 3, 2)), (Ellipsis, slice(0, 2)), (1, slice(1, None)),
